@@ -390,6 +390,8 @@ class Check:
         cov.setdefault("trusted_base", trusted or [])
         cov["property_theorems"] = self.proof["theorems"]
         cov["print_assumptions"] = sorted(set(self.proof["print_assumptions"]))
+        if "coqchk" in self.proof:
+            cov["coqchk"] = self.proof["coqchk"]
         cov["broken_obligations"] = self.broken
         cov["known_findings_hit"] = self.known_hits
         cov["notes"] = self.notes
